@@ -13,6 +13,7 @@ package c06
 import (
 	"encoding/json"
 	"fmt"
+	"strings"
 	"time"
 
 	"github.com/zenon-network/go-zenon/chain/nom"
@@ -57,6 +58,15 @@ func specs(tier string) []spec {
 		b2 := []ops.Op{{K: "T", A: 1, B: 0, T: 1, V: 11}, {K: "M", V: 2}}
 		b2 = append(b2, filler(d, 0)...)
 		out = append(out, spec{fmt.Sprintf("d%d/receive+delegate-vs-send", d), prefix, a2, b2})
+	}
+	// long common prefix: views more than 360 momentums behind the frontier live in the store's second view cache
+	longPrefix := append(append([]ops.Op{}, prefix...), rep(M, 362)...)
+	for _, d := range []int{1, 2} {
+		a := append([]ops.Op{{K: "T", A: 1, B: 2, V: 7}, M}, filler(d-1, 0)...)
+		b := append([]ops.Op{{K: "Call", S: "delegate", A: 3, B: 2}, {K: "T", A: 4, B: 2, V: 9}, {K: "M", V: 1}}, filler(d, 1)...)
+		if tier == "thorough" || d == 1 {
+			out = append(out, spec{fmt.Sprintf("l2/d%d/views-360-behind", d), longPrefix, a, b})
+		}
 	}
 	if tier == "thorough" {
 		for _, d := range []int{29, 30, 31} {
@@ -212,6 +222,10 @@ func runCase(c *xs.Ctx, r *xs.Result, bt *built, cs caseSpec, refObs observation
 	}
 	// views requested before the switch: last two prefix ids + abandoned ids (at most 3 of them: first, second, last)
 	warmable := []types.HashHeight{bt.a[bt.prefixH-2].Momentum.Identifier(), bt.a[bt.prefixH-3].Momentum.Identifier()}
+	if strings.HasPrefix(bt.sp.Name, "l2/") {
+		// far behind the frontier instead of just below the fork
+		warmable = []types.HashHeight{bt.a[0].Momentum.Identifier(), bt.a[2].Momentum.Identifier()}
+	}
 	warmable = append(warmable, bt.aIDs[0])
 	if len(bt.aIDs) > 1 {
 		warmable = append(warmable, bt.aIDs[len(bt.aIDs)-1])
@@ -425,7 +439,7 @@ func run(c *xs.Ctx, r *xs.Result) {
 		if len(sp.A) > 0 && get().aIDs != nil && len(get().aIDs) == 1 {
 			nwarm = 3
 		}
-		long := len(get().aIDs) > 3
+		long := len(get().aIDs) > 3 || strings.HasPrefix(sp.Name, "l2/")
 		for follow := 0; follow < 3; follow++ {
 			var refObs observation
 			var refIDs []types.HashHeight
